@@ -24,7 +24,7 @@ def variant_of(eng, st, v):
 
 
 def run(ctx, chk):
-    fb = ctx.facts('dev')
+    fb = ctx.facts()
     chk.explanation = ('N1: Drop for Context notifies MainThread with ThreadPanic/ThreadTerminate on every path. N2: each spawned '
                        'closure owns a Context by value, paired with the mailbox of the same id and handed by value to its worker, '
                        'whose Context is dropped on every normal and unwinding exit; no forget/leak of a Context. N3: the manager '
